@@ -307,6 +307,56 @@ async fn run(l: &mut Loose<8>, ops: &[Op], pred_gt: &[bool]) -> Out {
 /// the first key is deleted (marker into the closed blob: its index returns to memory, a deferred dump is armed), and
 /// `gap_ms` later the second one (a second request while the first deadline is pending, or just after it fired). Then
 /// nothing else is asked of the storage: the worker's own timers must bring the index file up to date.
+/// Dedicated scenario: a rotation request is still in the worker's queue when the client closes the active blob
+/// (the write that reached the record limit has just returned; nothing waits for the worker in between). Whichever
+/// of the two is served first, once the close has succeeded and the worker has drained its queue there is no active
+/// blob: a rotation must not conjure one up out of nothing. Afterwards restore and create behave as documented.
+async fn pending_rotation_then_close(l: &mut Loose<8>, limit: u64, yields: u32) -> Out {
+    let mut out = Out { violation: None, inconclusive: None, bg_inapplicable: 0, rotations: 0, index_files_checked: 0, polls: 0 };
+    if let Err(e) = l.open(false).await {
+        out.violation = Some(("init-failed-on-empty-dir".into(), e));
+        return out;
+    }
+    let s = l.storage.as_ref().unwrap();
+    for i in 0..limit {
+        let key = l.key(i as u16);
+        if i + 1 == limit {
+            // a rotation is only requested for a blob older than the debounce interval (0 ms here: "older than 0 ms")
+            tokio::time::sleep(Duration::from_millis(3)).await;
+        }
+        if let Err(e) = s.write(&key, bytes::Bytes::from(vec![7u8; 20]), pearl::BlobRecordTimestamp::new(1)).await {
+            out.violation = Some(("write-failed".into(), format!("{:#}", e)));
+            return out;
+        }
+    }
+    // the last write has queued a rotation request; give the worker `yields` chances to run before the close
+    for _ in 0..yields {
+        tokio::task::yield_now().await;
+    }
+    let closed = s.try_close_active_blob().await;
+    if !s.verif_barrier(false).await {
+        out.violation = Some(("worker-dead".into(), "worker died".into()));
+        return out;
+    }
+    let (active, blobs, next) = (s.has_active_blob().await, s.blobs_count().await, s.next_blob_id());
+    if closed.is_ok() && active {
+        out.violation = Some(("active-blob-appears-after-close".into(), format!("{} records were written (record limit {}), then try_close_active_blob succeeded; once the worker had served its queue an active blob exists again although nothing was written or created: has_active_blob = true, blobs_count = {}, next_blob_id = {}", limit, limit, blobs, next)));
+    } else if closed.is_ok() {
+        // the documented preconditions hold: restore must work, then close again, then create
+        if let Err(e) = s.try_restore_active_blob().await {
+            out.violation = Some(("restore-refused-without-active-blob".into(), format!("try_restore_active_blob failed although there is no active blob and a closed one exists: {:#}", e)));
+        } else if let Err(e) = s.try_close_active_blob().await {
+            out.violation = Some(("close-refused-after-restore".into(), format!("{:#}", e)));
+        } else if let Err(e) = s.try_create_active_blob().await {
+            out.violation = Some(("create-refused-without-active-blob".into(), format!("{:#}", e)));
+        }
+        out.rotations += 1;
+    }
+    let st = l.storage.take().unwrap();
+    let _ = tokio::time::timeout(Duration::from_secs(20), st.close()).await;
+    out
+}
+
 async fn two_deferred_requests(l: &mut Loose<8>, gap_ms: u64, poke: bool) -> Out {
     let mut out = Out { violation: None, inconclusive: None, bg_inapplicable: 0, rotations: 0, index_files_checked: 0, polls: 0 };
     if let Err(e) = l.open(false).await {
@@ -500,6 +550,31 @@ pub fn shard(ctx: &Ctx) -> Shard {
             match r {
                 Ok(out) => {
                     sh.add("closed_blob_index_files_checked", out.index_files_checked);
+                    if let Some((sig, detail)) = out.violation {
+                        sh.violation(&ctx.known, "C13", ctx.seed, &format!("C13/{}", sig), &detail, replay);
+                    }
+                }
+                Err(p) => sh.violation(&ctx.known, "C13", ctx.seed, "C13/panic", &p, replay),
+            }
+            continue;
+        }
+        if n % 16 == 3 {
+            let limit = rng.range(1, 4);
+            cfg.max_records = Some(limit);
+            cfg.max_blob_size = None;
+            cfg.auto_rotate = true;
+            cfg.mt = rng.chance(1, 3);
+            l.cfg = cfg.clone();
+            let yields = rng.below(3) as u32;
+            let r = block_on_catch(cfg.mt, pending_rotation_then_close(&mut l, limit, yields));
+            rm_dir(&dir);
+            n += 1;
+            sh.evaluations += 1;
+            sh.add("pending_rotation_then_close_scenarios", 1);
+            sh.nontrivial.insert(fnv(format!("prc-{}-{}-{}-{}", limit, yields, cfg.mt, n).as_bytes()));
+            let replay = json!({"check": "c13-pending-rotation-then-close", "cfg": cfg.to_json(), "limit": limit, "yields": yields});
+            match r {
+                Ok(out) => {
                     if let Some((sig, detail)) = out.violation {
                         sh.violation(&ctx.known, "C13", ctx.seed, &format!("C13/{}", sig), &detail, replay);
                     }
